@@ -87,7 +87,12 @@ EXERCISED = (
     "retry lifetimes given as ints; two subscribers that wait for each other on every frame; "
     "shutdown at every loop iteration after a failed write with a second life half a second "
     "later; dozens of connections in a row that each end in rejected input; sensor zones "
-    "that report no reading; temperatures far below zero")
+    "that report no reading; temperatures far below zero and of exactly zero; retry "
+    "lifetimes without end; zones without a name; one handler registered on every zone; a "
+    "lifetime ending between a failed write and the next connection; a socket object whose "
+    "earlier life ended during the back-off; reconnections refused once; the event loop held "
+    "up by a synchronous call; malformed frames followed by partial ones of the same kind; "
+    "error codes changing from one non-zero value to another")
 
 T = """You are helping to evaluate a verification harness by producing a *subtle, realistic regression* in a Python library.
 
